@@ -7,11 +7,13 @@
    ShareSet._load; the RS1024 detection theorem rests on XOR-linearity (symbolic) and a
    kernel computation over all 5456 triples of word positions (Proofs/Rs1024Sweep.v).
    Only statements here; proofs in Proofs/{Gf256Sweep,Gf256P,LagrangeP,ShamirP,FeistelP,
-   ShareCodecP,Rs1024P,Rs1024Sweep,ShamirChecksP,C15Glue}.v. *)
+   ShareCodecP,Rs1024P,Rs1024Sweep,ShamirChecksP,C15Glue,ShamirOuterP,ShareCanonP,
+   ShamirSecrecyP,ShamirTwoLevelP}.v. *)
 From Coq Require Import Field_theory.
 From V Require Import Base.Prelude Base.Ints Model.Mnemonic Model.Shamir Generated.Wordlists
   Proofs.Gf256P Proofs.ShamirP Proofs.FeistelP Proofs.ShareCodecP Proofs.Rs1024P
-  Proofs.Rs1024Sweep Proofs.ShamirChecksP Proofs.C15Glue Proofs.ShamirPipelineP.
+  Proofs.Rs1024Sweep Proofs.ShamirChecksP Proofs.C15Glue Proofs.ShamirPipelineP
+  Proofs.ShamirOuterP Proofs.ShareCanonP Proofs.ShamirSecrecyP Proofs.ShamirTwoLevelP.
 
 (* (1) GF(256): the tables built by _load *)
 Theorem C15_gf256_tables :
@@ -238,6 +240,412 @@ Example C15_pipeline_nonvacuous :
                (join_sp (repeat (nth 0 bip39_words []) 12)) 2 3 [] 0 5 (repeatz 3 12) = Ok ms /\
              length ms = 3%nat.
 Proof. eexists. split; [vm_compute; reflexivity | reflexivity]. Qed.
+
+(* ================================================================ deepening round
+
+   (7) the clauses of the property at the outermost API (generate_shares / recover_mnemonic /
+   Share.parse on text), the converse codec round trip, secrecy of fewer than k shares and
+   two-level share sets. *)
+
+(* FEWER THAN k, outer API: any list of fewer than k of the share mnemonics produced by one
+   k-of-n generate_shares call (any positions, repetitions allowed, any order, ANY passphrase)
+   is refused by recover_mnemonic — for every 1 <= k <= n <= 16 (for k = 1 the empty list) *)
+Theorem C15_pipeline_below_threshold :
+  forall (sha256 : bytes -> bytes) (hmac_sha256 : bytes -> bytes -> bytes),
+  (forall k m, length (hmac_sha256 k m) = 32%nat /\ bytes_ok (hmac_sha256 k m)) ->
+  forall (kdf : bytes -> bytes -> Z -> Z -> result bytes),
+  (forall p s c n r, kdf p s c n = Ok r -> zlen r = n /\ bytes_ok r) ->
+  forall m k n pass e id rnd ms js pass',
+  0 <= id < 32768 -> 0 <= e < 32 -> bytes_ok rnd ->
+  generate_shares sha256 hmac_sha256 kdf bip39_words slip39_words m k n pass e id rnd = Ok ms ->
+  Forall (fun j => (j < length ms)%nat) js -> Z.of_nat (length js) < k ->
+  recover_mnemonic sha256 hmac_sha256 kdf bip39_words slip39_words
+                   (map (fun j => nth j ms []) js) pass' = Err.
+Proof. exact pipeline_below_threshold. Qed.
+Print Assumptions C15_pipeline_below_threshold.
+
+(* the same share mnemonic handed in twice is refused (the positions js must be distinct in
+   C15_pipeline_recovery for a reason) *)
+Theorem C15_pipeline_duplicate_refused :
+  forall (sha256 : bytes -> bytes) (hmac_sha256 : bytes -> bytes -> bytes),
+  (forall k m, length (hmac_sha256 k m) = 32%nat /\ bytes_ok (hmac_sha256 k m)) ->
+  forall (kdf : bytes -> bytes -> Z -> Z -> result bytes),
+  (forall p s c n r, kdf p s c n = Ok r -> zlen r = n /\ bytes_ok r) ->
+  forall m k n pass e id rnd ms js pass',
+  0 <= id < 32768 -> 0 <= e < 32 -> bytes_ok rnd ->
+  generate_shares sha256 hmac_sha256 kdf bip39_words slip39_words m k n pass e id rnd = Ok ms ->
+  Forall (fun j => (j < length ms)%nat) js -> ~ NoDup js ->
+  recover_mnemonic sha256 hmac_sha256 kdf bip39_words slip39_words
+                   (map (fun j => nth j ms []) js) pass' = Err.
+Proof. exact pipeline_duplicate_refused. Qed.
+Print Assumptions C15_pipeline_duplicate_refused.
+
+(* DIFFERENT SPLITS NEVER MIX, outer API: a list of share mnemonics containing a share of each
+   of two generate_shares calls that differ in identifier, exponent, threshold, share count or
+   secret length is refused by recover_mnemonic, whatever else the list contains.  (Two calls
+   that agree in all five — identifiers collide with probability 2^-15 — are told apart only by
+   the 4-byte digest: not provable for an unspecified HMAC.) *)
+Theorem C15_pipeline_mixed_refused :
+  forall (sha256 : bytes -> bytes) (hmac_sha256 : bytes -> bytes -> bytes),
+  (forall k m, length (hmac_sha256 k m) = 32%nat /\ bytes_ok (hmac_sha256 k m)) ->
+  forall (kdf : bytes -> bytes -> Z -> Z -> result bytes),
+  (forall p s c n r, kdf p s c n = Ok r -> zlen r = n /\ bytes_ok r) ->
+  forall m1 k1 n1 pass1 e1 id1 rnd1 ms1 m2 k2 n2 pass2 e2 id2 rnd2 ms2 ts t1 t2 pass,
+  0 <= id1 < 32768 -> 0 <= e1 < 32 -> bytes_ok rnd1 ->
+  0 <= id2 < 32768 -> 0 <= e2 < 32 -> bytes_ok rnd2 ->
+  generate_shares sha256 hmac_sha256 kdf bip39_words slip39_words m1 k1 n1 pass1 e1 id1 rnd1 = Ok ms1 ->
+  generate_shares sha256 hmac_sha256 kdf bip39_words slip39_words m2 k2 n2 pass2 e2 id2 rnd2 = Ok ms2 ->
+  In t1 ms1 -> In t2 ms2 -> In t1 ts -> In t2 ts ->
+  id1 <> id2 \/ e1 <> e2 \/ k1 <> k2 \/ n1 <> n2 \/
+  (exists s1 s2, mnemonic_to_bytes sha256 bip39_words m1 = Ok s1 /\
+                 mnemonic_to_bytes sha256 bip39_words m2 = Ok s2 /\ zlen s1 <> zlen s2) ->
+  recover_mnemonic sha256 hmac_sha256 kdf bip39_words slip39_words ts pass = Err.
+Proof. exact pipeline_mixed_refused. Qed.
+Print Assumptions C15_pipeline_mixed_refused.
+
+(* CORRUPTION, text level (Share.parse on strings over the shipped list): a text with as many
+   words as the share mnemonic in which 1 to 3 words do not denote the word the mnemonic has at
+   that position (they denote another word — spelled in full or by its 4-letter prefix — or no
+   word at all) is rejected.  word_diffs / text_diffs count such positions; a word replaced by
+   its own 4-letter prefix is NOT a difference (Share.parse accepts that spelling). *)
+Theorem C15_corrupted_text_rejected : forall s m',
+  share_wf s -> length (split_ws m') = length (share_indices s) ->
+  (1 <= word_diffs slip39_words (share_indices s) (split_ws m') <= 3)%nat ->
+  share_parse slip39_words m' = Err.
+Proof. exact corrupted_text_rejected. Qed.
+Print Assumptions C15_corrupted_text_rejected.
+
+Theorem C15_corrupted_mnemonic_rejected : forall s m m',
+  share_wf s -> share_mnemonic slip39_words s = Ok m ->
+  length (split_ws m') = length (split_ws m) ->
+  (1 <= text_diffs slip39_words (split_ws m) (split_ws m') <= 3)%nat ->
+  share_parse slip39_words m' = Err.
+Proof. exact corrupted_mnemonic_rejected. Qed.
+Print Assumptions C15_corrupted_mnemonic_rejected.
+
+(* CONVERSE ROUND TRIP: the three checksum words are determined by the data words ... *)
+Theorem C15_rs1024_checksum_unique : forall cs data c0 c1 c2,
+  Forall (fun v => 0 <= v < 1024) (cs ++ data) ->
+  0 <= c0 < 1024 -> 0 <= c1 < 1024 -> 0 <= c2 < 1024 ->
+  rs1024_verify_checksum cs (data ++ [c0; c1; c2]) = true ->
+  rs1024_create_checksum cs data = [c0; c1; c2].
+Proof. exact rs1024_checksum_unique. Qed.
+Print Assumptions C15_rs1024_checksum_unique.
+
+(* ... an accepted 20- or 33-word list is exactly what Share.mnemonic produces for the parsed
+   share: mnemonic(parse(m)) = m, and the parsed share is well formed ... *)
+Theorem C15_share_parse_canonical : forall idx s,
+  (length idx = 20 \/ length idx = 33)%nat -> Forall (fun i => 0 <= i < 1024) idx ->
+  share_of_indices idx = Ok s -> share_wf s /\ share_indices s = idx.
+Proof. exact share_parse_canonical. Qed.
+Print Assumptions C15_share_parse_canonical.
+
+(* ... so no two different 20-/33-word lists parse to the same share ... *)
+Theorem C15_share_parse_injective : forall idx1 idx2 s,
+  (length idx1 = 20 \/ length idx1 = 33)%nat -> (length idx2 = 20 \/ length idx2 = 33)%nat ->
+  Forall (fun i => 0 <= i < 1024) idx1 -> Forall (fun i => 0 <= i < 1024) idx2 ->
+  share_of_indices idx1 = Ok s -> share_of_indices idx2 = Ok s -> idx1 = idx2.
+Proof. exact share_parse_injective. Qed.
+Print Assumptions C15_share_parse_injective.
+
+(* ... and on text: an accepted 20-/33-word text (any accepted spelling) is re-encoded to a
+   text with the same word indices, which parses to the same share *)
+Theorem C15_share_text_canonical : forall m s,
+  (length (split_ws m) = 20 \/ length (split_ws m) = 33)%nat ->
+  share_parse slip39_words m = Ok s ->
+  exists m', share_mnemonic slip39_words s = Ok m' /\
+             mapM (wl_index slip39_words) (split_ws m') = mapM (wl_index slip39_words) (split_ws m) /\
+             share_parse slip39_words m' = Ok s.
+Proof. exact share_text_canonical. Qed.
+Print Assumptions C15_share_text_canonical.
+
+(* EVERY ACCEPTED LENGTH (after ec24589 Share.parse rejects more than 8 padding bits).  Which
+   lengths are accepted at all: at least 20 words and, with w = number of value words,
+   (10 w) mod 16 <= 8 padding bits, i.e. w mod 8 in {0, 2, 4, 5, 7}: 20, 22, 23, 25, 27, 28, 30,
+   31, 33, ... words; the share length is 10 w rounded down to a multiple of 16 *)
+Theorem C15_share_parse_lengths : forall idx s,
+  Forall (fun i => 0 <= i < 1024) idx -> share_of_indices idx = Ok s ->
+  20 <= zlen idx /\ ((zlen idx - 7) * 10) mod 16 <= 8 /\
+  sh_bits s = (zlen idx - 7) * 10 / 16 * 16.
+Proof. exact share_parse_lengths. Qed.
+Print Assumptions C15_share_parse_lengths.
+
+(* mnemonic(parse(m)) = m for EVERY accepted list (Share.mnemonic pads with -bits % 10 bits since
+   ddaa02c) ... *)
+Theorem C15_share_parse_canonical_all : forall idx s,
+  Forall (fun i => 0 <= i < 1024) idx -> share_of_indices idx = Ok s -> share_indices s = idx.
+Proof. exact share_parse_canonical_all. Qed.
+Print Assumptions C15_share_parse_canonical_all.
+
+Theorem C15_share_text_canonical_all : forall m s,
+  share_parse slip39_words m = Ok s ->
+  exists m', share_mnemonic slip39_words s = Ok m' /\
+             mapM (wl_index slip39_words) (split_ws m') = mapM (wl_index slip39_words) (split_ws m) /\
+             share_parse slip39_words m' = Ok s.
+Proof. exact share_text_canonical_all. Qed.
+Print Assumptions C15_share_text_canonical_all.
+
+(* ... what Share.parse returns is a well-formed share of some SLIP39 length (share_wf_any: a
+   multiple of 16 bits, at least 128, every header field in range) ... *)
+Theorem C15_share_parse_wf_any : forall idx s,
+  Forall (fun i => 0 <= i < 1024) idx -> share_of_indices idx = Ok s -> share_wf_any s.
+Proof. exact share_parse_wf_any. Qed.
+Print Assumptions C15_share_parse_wf_any.
+
+(* ... and parse(mnemonic(s)) = s for every such share, of ANY length (128, 144, 160, ... bits):
+   Share.mnemonic's output is accepted by Share.parse, has 7 + ceil(bits / 10) words, and gives
+   the share back; on indices and as text over the shipped list *)
+Theorem C15_share_indices_roundtrip_all : forall s, share_wf_any s ->
+  share_of_indices (share_indices s) = Ok s /\
+  Forall (fun i => 0 <= i < 1024) (share_indices s) /\
+  zlen (share_indices s) = 7 + ((- sh_bits s) mod 10 + sh_bits s) / 10.
+Proof. exact share_indices_roundtrip_all. Qed.
+Print Assumptions C15_share_indices_roundtrip_all.
+
+Theorem C15_share_text_roundtrip_all : forall s, share_wf_any s ->
+  exists m, share_mnemonic slip39_words s = Ok m /\ share_parse slip39_words m = Ok s.
+Proof. exact share_text_roundtrip_all. Qed.
+Print Assumptions C15_share_text_roundtrip_all.
+
+(* ... and Share.parse is injective on ALL accepted lists, of whatever lengths *)
+Theorem C15_share_parse_injective_all : forall idx1 idx2 s,
+  Forall (fun i => 0 <= i < 1024) idx1 -> Forall (fun i => 0 <= i < 1024) idx2 ->
+  share_of_indices idx1 = Ok s -> share_of_indices idx2 = Ok s -> idx1 = idx2.
+Proof. exact share_parse_injective_all. Qed.
+Print Assumptions C15_share_parse_injective_all.
+
+(* the former counterexample (21 words parsing to the share of 20 words) is rejected now *)
+Theorem C15_share_parse_rejects_21 :
+  share_of_indices idx21 = Err /\ exists s, share_of_indices idx20 = Ok s.
+Proof. exact share_parse_rejects_21. Qed.
+Print Assumptions C15_share_parse_rejects_21.
+
+(* the 160-bit share whose 24-word encoding was rejected before ddaa02c: its 23 words are accepted
+   and are what Share.mnemonic produces (non-vacuity of the theorems above at an empty padding) *)
+Theorem C15_share_mnemonic_160_ok :
+  exists s, share_of_indices idx23 = Ok s /\ sh_bits s = 160 /\ share_indices s = idx23.
+Proof. exact share_mnemonic_160_ok. Qed.
+Print Assumptions C15_share_mnemonic_160_ok.
+
+Example C15_share_wf_any_inhabited :
+  share_wf_any {| sh_bits := 160; sh_id := 7; sh_exp := 0; sh_gi := 1; sh_gt := 2; sh_gc := 3;
+                  sh_mi := 0; sh_mt := 1; sh_value := 5; sh_bytes := to_be 20 5 |}.
+Proof. unfold share_wf_any; cbn [sh_bits sh_id sh_exp sh_gi sh_gt sh_gc sh_mi sh_mt sh_value sh_bytes].
+  repeat split; try lia; reflexivity. Qed.
+
+(* FEISTEL, the other direction and the general _crypt: running _crypt with the reversed round
+   list undoes it (any round list); encrypt after decrypt is the identity *)
+Theorem C15_crypt_reverse :
+  forall (kdf : bytes -> bytes -> Z -> Z -> result bytes),
+  (forall p s c n r, kdf p s c n = Ok r -> zlen r = n) ->
+  forall payload id e pass idxs c,
+  crypt kdf payload id e pass idxs = Ok c ->
+  crypt kdf c id e pass (rev idxs) = Ok payload /\ zlen c = zlen payload.
+Proof. exact crypt_reverse. Qed.
+Print Assumptions C15_crypt_reverse.
+
+Theorem C15_decrypt_then_encrypt :
+  forall (kdf : bytes -> bytes -> Z -> Z -> result bytes),
+  (forall p s c n r, kdf p s c n = Ok r -> zlen r = n) ->
+  forall ss c pass p,
+  decrypt kdf ss c pass = Ok p -> encrypt kdf p (ss_id ss) (ss_exp ss) pass = Ok c.
+Proof. intros kdf H ss c pass p. exact (feistel_inverse' kdf H c (ss_id ss) (ss_exp ss) pass p). Qed.
+Print Assumptions C15_decrypt_then_encrypt.
+
+(* SECRECY OF FEWER THAN k SHARES.  split_secret (k >= 2) draws k-2 random strings sd and builds
+   the digest share ds; what follows is the deterministic split_with sd ds secret k n: *)
+Theorem C15_split_secret_with : forall (hmac_sha256 : bytes -> bytes -> bytes),
+  (forall k m, length (hmac_sha256 k m) = 32%nat /\ bytes_ok (hmac_sha256 k m)) ->
+  forall secret k n rnd shares,
+  2 <= k -> bytes_ok rnd ->
+  split_secret hmac_sha256 secret k n rnd = Ok shares ->
+  exists random sd,
+    k <= n <= 16 /\ (length secret = 16 \/ length secret = 32)%nat /\
+    pt_ok (length secret) (digest hmac_sha256 random secret ++ random) /\
+    sd_ok sd k (length secret) /\
+    split_with sd (digest hmac_sha256 random secret ++ random) secret k n = Ok shares.
+Proof. exact split_secret_with. Qed.
+Print Assumptions C15_split_secret_with.
+
+(* Whatever fewer than k of the n shares are observed, and whatever other secret' of the same
+   length is considered: there are random strings sd' and a digest-share value ds' for which
+   the split of secret' yields exactly the observed shares at the observed indices.  Fewer
+   than k shares thus exclude no candidate secret; what ties them to the secret is only
+   whether ds' has the form HMAC(r, secret')[:4] ++ r — a 32-bit filter that depends on the
+   hash function and is not a statement about this code. *)
+Theorem C15_shamir_secrecy : forall nb sd ds secret k n shares sub secret',
+  2 <= k <= n -> n <= 16 ->
+  sd_ok sd k nb -> pt_ok nb ds -> pt_ok nb secret ->
+  split_with sd ds secret k n = Ok shares ->
+  NoDup (map fst sub) -> (forall p, In p sub -> In p shares) -> zlen sub < k ->
+  pt_ok nb secret' ->
+  exists sd' ds' shares',
+    sd_ok sd' k nb /\ pt_ok nb ds' /\
+    split_with sd' ds' secret' k n = Ok shares' /\
+    (forall p, In p sub -> In p shares').
+Proof. exact shamir_secrecy. Qed.
+Print Assumptions C15_shamir_secrecy.
+
+Theorem C15_split_secret_secrecy : forall (hmac_sha256 : bytes -> bytes -> bytes),
+  (forall k m, length (hmac_sha256 k m) = 32%nat /\ bytes_ok (hmac_sha256 k m)) ->
+  forall secret k n rnd shares sub secret',
+  2 <= k -> bytes_ok secret -> bytes_ok rnd ->
+  split_secret hmac_sha256 secret k n rnd = Ok shares ->
+  NoDup (map fst sub) -> (forall p, In p sub -> In p shares) -> zlen sub < k ->
+  length secret' = length secret -> bytes_ok secret' ->
+  exists sd' ds' shares',
+    sd_ok sd' k (length secret) /\ pt_ok (length secret) ds' /\
+    split_with sd' ds' secret' k n = Ok shares' /\
+    (forall p, In p sub -> In p shares').
+Proof. exact split_secret_secrecy. Qed.
+Print Assumptions C15_split_secret_secrecy.
+
+(* TWO-LEVEL SHARE SETS (member_threshold > 1; what ShareSet.recover / recover_mnemonic accept
+   from other SLIP39 tools): the encrypted secret split gt-of-gc into group shares, the share of
+   every presented group i split mt(i)-of-mc(i) among members (group_split), every presented
+   share a member share of its group whose group presents at least mt(i) members (member_ok),
+   pairwise distinct (group, member) indices, at least gt groups touched: recover returns the
+   secret — any order, any mixture of member thresholds 1 and > 1 *)
+Theorem C15_two_level_recovery :
+  forall (hmac_sha256 : bytes -> bytes -> bytes),
+  (forall k m, length (hmac_sha256 k m) = 32%nat /\ bytes_ok (hmac_sha256 k m)) ->
+  forall (kdf : bytes -> bytes -> Z -> Z -> result bytes),
+  (forall p s c n r, kdf p s c n = Ok r -> zlen r = n /\ bytes_ok r) ->
+  forall (mt : Z -> Z) (mdata : Z -> list (Z * bytes))
+         secret enc id e pass gt gc rnd0 gdata shares salt bits,
+  bytes_ok secret -> bytes_ok rnd0 ->
+  encrypt kdf secret id e pass = Ok enc ->
+  split_secret hmac_sha256 enc gt gc rnd0 = Ok gdata ->
+  Forall (member_ok hmac_sha256 mt mdata gdata shares) shares ->
+  NoDup (map (fun s => (sh_gi s, sh_mi s)) shares) ->
+  (exists gs, NoDup gs /\ (forall i, In i gs -> In i (map sh_gi shares)) /\ gt <= zlen gs) ->
+  recover hmac_sha256 kdf
+    {| ss_shares := shares; ss_id := id; ss_salt := salt; ss_exp := e; ss_gt := gt; ss_gc := gc;
+       ss_bits := bits |} pass = Ok secret.
+Proof. exact two_level_recovery. Qed.
+Print Assumptions C15_two_level_recovery.
+
+(* non-vacuity of the deepening-round theorems *)
+Definition ex_sha : bytes -> bytes := fun _ => [0].
+Definition ex_hm : bytes -> bytes -> bytes := fun _ _ => repeatz 0 32.
+Definition ex_kdf : bytes -> bytes -> Z -> Z -> result bytes := fun _ _ _ n => Ok (repeatz 0 (Z.to_nat n)).
+Definition ex_m : text := join_sp (repeat (nth 0 bip39_words []) 12).
+Definition ex_gen (id : Z) : result (list text) :=
+  generate_shares ex_sha ex_hm ex_kdf bip39_words slip39_words ex_m 2 3 [] 0 id (repeatz 3 12).
+
+(* one share of a 2-of-3 split is refused; shares of two splits (ids 5 and 6) are refused *)
+Example C15_pipeline_below_threshold_nonvacuous :
+  exists ms, ex_gen 5 = Ok ms /\ length ms = 3%nat /\
+    recover_mnemonic ex_sha ex_hm ex_kdf bip39_words slip39_words
+                     (map (fun j => nth j ms []) [1%nat]) [] = Err.
+Proof. eexists. split; [vm_compute; reflexivity|]. split; [reflexivity | vm_compute; reflexivity]. Qed.
+
+Example C15_pipeline_duplicate_nonvacuous :
+  exists ms, ex_gen 5 = Ok ms /\ ~ NoDup [0%nat; 1%nat; 0%nat] /\
+    recover_mnemonic ex_sha ex_hm ex_kdf bip39_words slip39_words
+                     (map (fun j => nth j ms []) [0%nat; 1%nat; 0%nat]) [] = Err.
+Proof.
+  eexists. split; [vm_compute; reflexivity|]. split; [|vm_compute; reflexivity].
+  intros H. inversion H as [|? ? Hn _]; subst. apply Hn. right. now left.
+Qed.
+
+Example C15_pipeline_mixed_nonvacuous :
+  exists ms1 ms2, ex_gen 5 = Ok ms1 /\ ex_gen 6 = Ok ms2 /\
+    recover_mnemonic ex_sha ex_hm ex_kdf bip39_words slip39_words [nth 0 ms1 []; nth 1 ms2 []] [] = Err /\
+    (exists m', recover_mnemonic ex_sha ex_hm ex_kdf bip39_words slip39_words [nth 0 ms1 []; nth 1 ms1 []] [] = Ok m').
+Proof.
+  eexists. eexists. split; [vm_compute; reflexivity|]. split; [vm_compute; reflexivity|].
+  split; [vm_compute; reflexivity|]. eexists. vm_compute. reflexivity.
+Qed.
+
+Definition ex_share : share :=
+  {| sh_bits := 128; sh_id := 7; sh_exp := 0; sh_gi := 1; sh_gt := 2; sh_gc := 3;
+     sh_mi := 0; sh_mt := 1; sh_value := 5; sh_bytes := to_be 16 5 |}.
+
+(* a share mnemonic with its first word replaced by another word, its second by an unknown
+   string: two differences, rejected; replaced by the 4-letter prefix of the same word: none *)
+Example C15_corrupted_text_nonvacuous :
+  match share_mnemonic slip39_words ex_share with
+  | Ok m =>
+      let ws := split_ws m in
+      let m' := join_sp (nth 1000 slip39_words [] :: [122; 122] :: tl (tl ws)) in
+      let m'' := join_sp (firstn 4 (nth 0 ws []) :: tl ws) in
+      length (split_ws m') = length ws /\ text_diffs slip39_words ws (split_ws m') = 2%nat /\
+      share_parse slip39_words m' = Err /\
+      m'' <> m /\ text_diffs slip39_words ws (split_ws m'') = 0%nat /\
+      share_parse slip39_words m'' = Ok ex_share
+  | Err => False
+  end.
+Proof. vm_compute. repeat split; discriminate. Qed.
+
+Example C15_share_parse_canonical_nonvacuous :
+  exists s, share_of_indices idx20 = Ok s /\ length idx20 = 20%nat.
+Proof. eexists. split; [vm_compute; reflexivity | reflexivity]. Qed.
+
+(* a 3-of-4 split with explicit random string and digest share *)
+Example C15_shamir_secrecy_nonvacuous :
+  sd_ok [(0, repeatz 5 16)] 3 16 /\ pt_ok 16 (repeatz 7 16) /\ pt_ok 16 (repeatz 1 16) /\
+  exists shares, split_with [(0, repeatz 5 16)] (repeatz 7 16) (repeatz 1 16) 3 4 = Ok shares /\
+                 length shares = 4%nat.
+Proof.
+  split; [split; [reflexivity | constructor; [|constructor]; split; [reflexivity | apply bytes_ok_repeatz; unfold byte_ok; lia]]|].
+  split; [split; [reflexivity | apply bytes_ok_repeatz; unfold byte_ok; lia]|].
+  split; [split; [reflexivity | apply bytes_ok_repeatz; unfold byte_ok; lia]|].
+  eexists. split; [vm_compute; reflexivity | reflexivity].
+Qed.
+
+(* a 2-of-2 group split whose two group shares are split 2-of-3 and 1-of-2 among members *)
+Definition ex_secret : bytes := repeatz 9 16.
+Definition ex_enc : bytes :=
+  Eval vm_compute in match encrypt ex_kdf ex_secret 7 0 [] with Ok c => c | Err => [] end.
+Definition ex_gdata : list (Z * bytes) :=
+  Eval vm_compute in match split_secret ex_hm ex_enc 2 2 (repeatz 3 12) with Ok d => d | Err => [] end.
+Definition ex_mt (i : Z) : Z := if i =? 0 then 2 else 1.
+Definition ex_mdata (i : Z) : list (Z * bytes) :=
+  Eval vm_compute in
+    (if i =? 0
+     then match split_secret ex_hm (snd (nth 0 ex_gdata (0, []))) 2 3 (repeatz 4 12) with Ok d => d | Err => [] end
+     else match split_secret ex_hm (snd (nth 1 ex_gdata (0, []))) 1 2 [] with Ok d => d | Err => [] end).
+Definition ex_sh (gi mi : Z) : share :=
+  let b := snd (nth (Z.to_nat mi) (ex_mdata gi) (0, [])) in
+  {| sh_bits := 128; sh_id := 7; sh_exp := 0; sh_gi := gi; sh_gt := 2; sh_gc := 2;
+     sh_mi := mi; sh_mt := ex_mt gi; sh_value := from_be b; sh_bytes := b |}.
+Definition ex_shares : list share := [ex_sh 0 2; ex_sh 1 1; ex_sh 0 0].
+
+Example C15_two_level_nonvacuous :
+  encrypt ex_kdf ex_secret 7 0 [] = Ok ex_enc /\
+  split_secret ex_hm ex_enc 2 2 (repeatz 3 12) = Ok ex_gdata /\
+  Forall (member_ok ex_hm ex_mt ex_mdata ex_gdata ex_shares) ex_shares /\
+  NoDup (map (fun s => (sh_gi s, sh_mi s)) ex_shares) /\
+  (exists gs, NoDup gs /\ (forall i, In i gs -> In i (map sh_gi ex_shares)) /\ 2 <= zlen gs) /\
+  recover ex_hm ex_kdf
+    {| ss_shares := ex_shares; ss_id := 7; ss_salt := []; ss_exp := 0; ss_gt := 2; ss_gc := 2;
+       ss_bits := 128 |} [] = Ok ex_secret.
+Proof.
+  assert (B : forall n v, 0 <= v < 256 -> bytes_ok (repeatz v n)).
+  { intros n v Hv. apply bytes_ok_repeatz. unfold byte_ok. lia. }
+  assert (G0 : group_split ex_hm ex_mt ex_mdata ex_gdata 0).
+  { exists (snd (nth 0 ex_gdata (0, []))), 3, (repeatz 4 12).
+    split; [vm_compute; auto|]. split; [apply B; lia | vm_compute; reflexivity]. }
+  assert (G1 : group_split ex_hm ex_mt ex_mdata ex_gdata 1).
+  { exists (snd (nth 1 ex_gdata (0, []))), 2, [].
+    split; [vm_compute; auto|]. split; [constructor | vm_compute; reflexivity]. }
+  split; [vm_compute; reflexivity|]. split; [vm_compute; reflexivity|].
+  split.
+  { assert (M : forall gi mi, group_split ex_hm ex_mt ex_mdata ex_gdata gi ->
+                In (mi, sh_bytes (ex_sh gi mi)) (ex_mdata gi) ->
+                ex_mt gi <= zlen (filter (fun t => sh_gi t =? gi) ex_shares) ->
+                member_ok ex_hm ex_mt ex_mdata ex_gdata ex_shares (ex_sh gi mi)).
+    { intros gi mi H1 H2 H3. split; [exact H1|]. split; [reflexivity|]. split; [exact H2 | exact H3]. }
+    constructor; [|constructor; [|constructor; [|constructor]]]; apply M;
+      try exact G0; try exact G1; try (vm_compute; auto 10; fail); vm_compute; discriminate. }
+  split.
+  { vm_compute. repeat constructor; cbn; intuition discriminate. }
+  split.
+  { exists [0; 1]. split; [repeat constructor; cbn; intuition discriminate|].
+    split; [|vm_compute; discriminate]. intros i [<-|[<-|[]]]; vm_compute; auto. }
+  vm_compute. reflexivity.
+Qed.
 
 (* The constants written in the model are the constants of the SOURCE: coq/Generated/SrcConsts.v is regenerated
    from /repo/buidl/*.py by harness/gen_coq_consts.py on every run; the statements are spelled out in
